@@ -98,6 +98,12 @@ pub trait Prop {
     fn transcript_pairs(&self) -> Vec<(&'static str, &'static str)> {
         vec![]
     }
+    /// deterministic, enumerated cases executed (by shard 0 of every build) before the generated
+    /// ones: finite sub-spaces that are covered completely
+    fn fixed_cases(&self, tier: Tier) -> Vec<Self::Case> {
+        let _ = tier;
+        vec![]
+    }
     fn pre_steps(&self) -> Vec<&'static str> {
         vec![]
     }
@@ -207,6 +213,50 @@ pub fn run_prop<P: Prop>(p: &P, o: &RunOpts) -> Value {
         .status
         .as_ref()
         .map(|p| std::fs::File::create(p).expect("status file"));
+
+    // enumerated part (shard 0 only)
+    let mut fixed_run = 0u64;
+    let mut fixed_failure: Option<(String, String)> = None;
+    if o.shard == 0 && o.dump_index.is_none() {
+        for case in p.fixed_cases(o.tier) {
+            let mut ctx = Ctx { build: o.build.clone(), thorough: o.tier == Tier::Thorough, ..Ctx::default() };
+            let r = catch(|| p.run(&case, &mut ctx));
+            fixed_run += 1;
+            let mut s = st.borrow_mut();
+            s.evaluations += 1;
+            s.queries += ctx.queries;
+            if ctx.nontrivial {
+                s.nt_hashes.insert(hash_of(&case));
+            }
+            for (k, v) in ctx.labels.iter() {
+                *s.labels.entry(k.clone()).or_insert(0) += v;
+            }
+            let m = match r {
+                Ok(Ok(())) => None,
+                Ok(Err(f)) => Some(f.msg),
+                Err(pm) => {
+                    let n = current_note();
+                    Some(format!("panic: {pm} during {}({}, {}, {})", n.op, n.a, n.b, n.c))
+                }
+            };
+            if let Some(m) = m {
+                fixed_failure = Some((m.clone(), case_file(p.id(), &o.build, &m, &case)));
+                break;
+            }
+        }
+    }
+    if let Some((m, text)) = fixed_failure {
+        let s = st.into_inner();
+        return json!({
+            "property": p.id(), "build": o.build, "shard": o.shard, "seed": o.seed,
+            "evaluations": s.evaluations, "queries": s.queries, "excluded_known": 0,
+            "labels": s.labels, "nt_hashes": Vec::<String>::new(), "samples": Vec::<Value>::new(),
+            "transcripts": Vec::<String>::new(),
+            "failure": {"message": m, "first_message": "enumerated (fixed) case", "case_index": fixed_run},
+            "failure_file_text": text, "rule": p.rule(), "extra": {"fixed_cases": fixed_run},
+            "wall_s": t0.elapsed().as_secs_f64(),
+        });
+    }
 
     let status_cell = RefCell::new(&mut status_file);
     let result = runner.run(&strat, |case| {
@@ -330,6 +380,7 @@ pub fn run_prop<P: Prop>(p: &P, o: &RunOpts) -> Value {
         "failure": failure,
         "failure_file_text": failing_case_text,
         "rule": p.rule(),
+        "extra": {"fixed_cases": fixed_run},
         "wall_s": t0.elapsed().as_secs_f64(),
     });
     out
